@@ -27,10 +27,10 @@ def model(chk, D, M, kind, S=1 << 8, mode="accumulate", inv=INV6, expect=None, o
 
 
 # coordinate of the centre of cell 0 in units of h, tied to the spacing so that the quick tier sees a grid origin other than h/2
-SFRAC = {0.25: 0.5, 2.0: 0.25, 2.0**-6: 0.0, 4.0: -3.25}
+SFRAC = {0.25: 0.5, 2.0: 0.25, 2.0**-6: 0.0, 4.0: -3.25, 0.02: 0.5, 0.3: 0.0}
 # half-width of the support window handed to the kernels: both delta functions require 2 (the generators raise ValueError for any
 # other width -- covered by X01), so this is a constant; the plumbing stays parametric
-WIDTH = {0.25: 2, 2.0: 2, 2.0**-6: 2, 4.0: 2}
+WIDTH = {0.25: 2, 2.0: 2, 2.0**-6: 2, 4.0: 2, 0.02: 2, 0.3: 2}
 
 
 def drive(chk, D, kind, real_t, h, cells, residues, M, grid, bump):
@@ -134,7 +134,7 @@ def run(chk: core.Check):
     for D in (2, 3):
         for kind in ("cosine", "peskin"):
             for real_t in (np.float64, np.float32):
-                for h in ((0.25, 2.0) if quick else (0.25, 2.0**-6, 2.0, 4.0)):
+                for h in ((0.25, 2.0, 0.02) if quick else (0.25, 2.0**-6, 2.0, 4.0, 0.02, 0.3)):   # dyadic and non-dyadic spacings
                     for M in Ms:
                         grid = (9, 13) if D == 2 else (8, 10, 14)        # array order (.., y, x): non-cubic
                         ext = [grid[D - 1 - k] for k in range(D)]        # extent per physical axis
